@@ -292,6 +292,7 @@ def run(rep, facts, tier):
             run_side(rep, facts['security'], dict(S, name=S['name'] + '-security'))
 
     rule_11_7(rep, fx, facts)
+    rule_11_8(rep, fx)
 
     # ------------------------------------------------------------ R11.6 crossed roles (shared lint, rdv/swaplint.py)
     from rdv import swaplint
@@ -338,3 +339,25 @@ def rule_11_7(rep, fx, facts):
             ok = unfiltered and from_ann and guarded and always
             why = 'unfiltered iteration %s, proxy/QoS from the announcement %s, behind topic-name equality %s, nothing else decides %s' % (unfiltered, from_ann, guarded, always)
         rep.check(ok, 'R11.7', '%s/routing' % nm, why, '%s does not offer the discovered endpoint to exactly the local endpoints on the same topic (%s)' % (nm, why), b.where())
+
+
+def rule_11_8(rep, fx):
+    rep.rule('R11.8', 'all endpoints of a participant: GuidPrefix::range() is GUID(prefix, all-zero entity id) ..= GUID(prefix, all-0xFF entity id), the full span of one prefix in the '
+                      'GUID-ordered maps; participant_lost (reader and writer side) and the discovery database select by it')
+    b = fx.find('structure::guid::GuidPrefix::range')
+    rep.analysed(b)
+    og = Origins(b)
+    t = og.of_local(0, b.return_blocks()[0], 'term')
+    cb = {c['path']: c.get('bytes') for c in fx.doc['consts'] if c['path'].startswith('structure::guid::EntityId::')}
+
+    def bound(x):
+        if x[0] == 'call' and x[1].endswith('GUID::new') and len(x[2]) == 2 and x[2][0] == ('param', 1) and x[2][1][0] == 'const':
+            return cb.get(x[2][1][2])
+        return None
+    ok = t[0] == 'call' and t[1].endswith('RangeInclusive::new') and len(t[2]) == 2 and bound(t[2][0]) == [0, 0, 0, 0] and bound(t[2][1]) == [255, 255, 255, 255]
+    rep.check(ok, 'R11.8', 'GuidPrefix::range/full-span', 'GUID(prefix, 00000000) ..= GUID(prefix, ffffffff)',
+              'GuidPrefix::range does not span every entity id of the prefix (%s): when a participant is lost, endpoints with ids outside the range stay matched and no unmatch status is sent' % term_str(t)[:120], b.where())
+    users = sorted(set(x.key.rsplit('::', 2)[-2] + '::' + x.key.rsplit('::', 1)[-1] for x, _bb, _t in fx.callers_of('GuidPrefix::range')))
+    need = ('Reader::participant_lost', 'Writer::participant_lost')
+    rep.check(all(any(u.endswith(n) for u in users) for n in need), 'R11.8', 'GuidPrefix::range/users', 'used by %s' % ', '.join(users)[:160],
+              'participant_lost of the reader or the writer no longer selects its proxies with GuidPrefix::range (users: %s)' % users, b.where())
